@@ -127,9 +127,13 @@ def scalarEq (rv : Bool) (xd : Option EV) (xok : Kind) (y : Side) : Option ErrCl
 /-- Kind of x as `assertReflect(x)` alone sees it: a pointer if `derefPtr` stripped one from an `any` -/
 def xkind (rv sp : Bool) (d : EV) : Kind := if !rv && sp then .ptr else d.kind
 
+/-- a NaN is not equal to itself -/
+def selfEqual : EV → Bool
+  | .prim _ _ n => !n
+  | _ => true
+
 /-- NaN keys are never found by `MapIndex` -/
-def keyEq (k k' : EV) : Bool :=
-  decide (k = k') && (match k with | .prim _ _ n => !n | _ => true)
+def keyEq (k k' : EV) : Bool := decide (k = k') && selfEqual k
 
 /-- `yrv.MapIndex(key)` (`none` = the invalid Value) -/
 def lookup (k : EV) : List EV → List EV → Option EV
